@@ -15,6 +15,11 @@ open NcVerif NcVerif.Gen NcVerif.OpsSpec NcVerif.Caps NcVerif.Ops
     url, notification, with-defaults; junos / sros commit overrides included). -/
 theorem asserted_is_documented : ∀ r ∈ opRows, gatingOk r = true := by decide +kernel
 
+/-- A capability-dependent parameter element (`confirmed`, `confirm-timeout`, `persist`, `test-option`,
+    `with-defaults`) is never on the wire without its capability having been asserted — also for argument
+    combinations the documentation does not foresee (e.g. `persist` without `confirmed`). -/
+theorem gated_elements_asserted : ∀ r ∈ opRows, gatedParamsOk r = true := by decide +kernel
+
 /-- With a required capability missing the call is refused (MissingCapabilityError / WithDefaultsError)
     and nothing is put on the wire. -/
 theorem refused_silently : ∀ r ∈ opRows, refusalOk r = true := by decide +kernel
@@ -68,6 +73,8 @@ theorem with_defaults_iff (caps : Caps) (mode : Str) :
           by_cases h : lowerAscii (pyStrip mode) = b <;> simp [hb, ha, h]
 
 /-! Non-vacuity -/
+example : ∃ r ∈ opRows, isSent r = true ∧ r.op = s "commit" ∧ argIs r "confirmed" "False" = true ∧ argIs r "persist" "True" = true := by
+  decide +kernel
 example : ∃ r ∈ opRows, isSent r = true ∧ required r = [s ":url", s ":validate", s ":validate:1.1", s ":rollback-on-error"] := by
   decide +kernel
 example : gate (mk ["urn:ietf:params:xml:ns:netconf:capability:candidate:1.0".toList]) [":candidate".toList] = none := by decide
